@@ -197,6 +197,56 @@ def eff_cost_ok(circ, cap=6000):
     return du.max_depth_cost(c, cap) <= cap
 
 
+def metric_fails(inp, name):
+    """does metric `name` (or register_depth) still disagree with its definition on this history?"""
+    import random
+
+    try:
+        circ, errs = du.replay_edits(inp["ne"], inp["np"], inp["nc"], inp["edits"])
+    except Exception:  # noqa: BLE001
+        return False
+    if any(e for e in errs):
+        return False
+    ref, regd = ref_metrics(circ)
+    if name == "register_depth":
+        if du.max_depth_cost(circ, 6000) > 6000:
+            return False
+        try:
+            rd = circ.register_depth
+            return {t: [int(x) for x in rd[t]] for t in "epc"} != regd
+        except Exception:  # noqa: BLE001
+            return True
+    if name == "eff" and not eff_cost_ok(circ):
+        return False
+    vals = evaluate_all(circ, random.Random(0), name == "eff")
+    d, pen, (a, b), d3 = vals[name]
+    want = ref[name]
+    return str(d) != str(want) or (isinstance(want, int) and (pen != a * want + b or d3 != want))
+
+
+def shrink(inp, name, budget_s=6.0):
+    import time
+
+    t0 = time.time()
+    cur = dict(inp)
+    changed = True
+    while changed and time.time() - t0 < budget_s:
+        changed = False
+        for i in range(len(cur["edits"]) - 1, -1, -1):
+            cand = dict(cur, edits=cur["edits"][:i] + cur["edits"][i + 1:])
+            if metric_fails(cand, name):
+                cur = cand
+                changed = True
+            if time.time() - t0 > budget_s:
+                break
+    return cur
+
+
+def report(res, key, clause, inp, name):
+    small = shrink(inp, name) if len(res.violations) < 2 else inp
+    res.violation(key, clause, input=small, original_length=len(inp["edits"]))
+
+
 def check_circuit(res, circ, rng, inp, model_m, model_spec=None):
     """compare implementation, model (as coded) and definitions on one circuit"""
     before = du.canon_state(du.canon_parts(circ)[0])
@@ -214,10 +264,10 @@ def check_circuit(res, circ, rng, inp, model_m, model_spec=None):
         d, pen, (a, b), d3 = vals[name]
         want = ref[name]
         if str(d) != str(want):
-            res.violation(f"metric:{name}:wrong-value", f"{cls}().evaluate = {d}, definition on the operation list gives {want}", input=inp)
+            report(res, f"metric:{name}:wrong-value", f"{cls}().evaluate = {d}, definition on the operation list gives {want}", inp, name)
             return
         if isinstance(want, int) and (pen != a * want + b or d3 != want):
-            res.violation(f"metric:{name}:penalty", f"{cls}({kw}=x->{a}x+{b}).evaluate = {pen}, expected {a * want + b}; log_steps=3 gives {d3}", input=inp)
+            report(res, f"metric:{name}:penalty", f"{cls}({kw}=x->{a}x+{b}).evaluate = {pen}, expected {a * want + b}; log_steps=3 gives {d3}", inp, name)
             return
     if impl_m != model_m:
         res.exact_break("metrics.evaluate", input=inp, impl=impl_m, model=model_m)
@@ -232,7 +282,7 @@ def check_circuit(res, circ, rng, inp, model_m, model_spec=None):
         except Exception as e:  # noqa: BLE001
             got = "!" + du.err_name(e)
         if got != regd:
-            res.violation("metric:register_depth:wrong-value", f"register_depth = {got}, ASAP layer of the last operation per register = {regd}", input=inp)
+            report(res, "metric:register_depth:wrong-value", f"register_depth = {got}, ASAP layer of the last operation per register = {regd}", inp, "register_depth")
     res.traces_validated += 1
 
 
